@@ -236,6 +236,36 @@ PROPS = {
         "technique": "deterministic simulation with exhaustive single-fault "
         "and crash-point injection per seeded scenario",
     },
+    "C19": {
+        "flavours": ["tsan", "asan"],
+        "runs": {"quick": 1500, "thorough": 60000},
+        "rule": "one case = a real Stats object (accept thread + detached "
+        "handler threads, real AF_UNIX sockets) with 1-3 API threads issuing "
+        "increment (unique powers of two) / set / reset / getAll on <= 3 "
+        "keys and 1-4 socket clients: the real StatsClient (get / reset) or "
+        "raw clients sending 0-40 generated bytes with or without "
+        "terminator, byte-by-byte, half-closing, stalling past the 2 s "
+        "timeout or closing before the reply; EINTR injection on socket "
+        "reads; destruction after or while clients are active; 12 % of the "
+        "cases construct the service with socket paths of length 90-200 or "
+        "in a missing directory; non-trivial = more than two context "
+        "switches; distinct = distinct (event log, schedule) hash",
+        "level_text": "seeded exploration of thread interleavings under the "
+        "deterministic scheduler with virtual time (TSan as happens-before "
+        "race detector, ASan in the second flavour); oracles: history of API "
+        "and g/r socket operations linearizable against a sequential map "
+        "(Wing-Gong search, <= 14 operations), every connection gets at "
+        "most one reply that parses as the documented JSON with the "
+        "documented error code and is then closed, no signal/abort/"
+        "sanitizer report, ~Stats returns (its 5 s wait runs on the virtual "
+        "clock), unusable or over-long paths are refused with an exception.",
+        "real": ["Oomd::Stats with its accept and handler threads, "
+                 "Oomd::StatsClient, Util::readFull/writeFull, jsoncpp, real "
+                 "AF_UNIX stream sockets"],
+        "stubs": ["thread scheduling (baton scheduler)", "virtual clock; "
+                  "SO_RCVTIMEO expiry is virtual", "API and raw-client "
+                  "threads are harness code"],
+    },
     "C20": {
         "flavours": ["tsan", "asan"],
         "runs": {"quick": 1500, "thorough": 60000},
